@@ -293,8 +293,12 @@ def capture_sequences(env, kind, which, n):
     it.call_hook = hook
     st = State()
     p = K.place(st, K.mk(st, n, sym_words(n, "a")))
+    capture_sequences.last_panic = None
     try:
-        it.call_body(b, [p], st, K.env(n))
+        outs_ = it.call_body(b, [p], st, K.env(n))
+        # the method ended before reaching the decoder: a panic on every path is a definite failure of the method
+        if outs_ and all(o.kind == "panic" for o in outs_) and all(pc_status(o.pc)[0] == "sat" for o in outs_):
+            capture_sequences.last_panic = "%s in %s" % (outs_[0].info.get("msg"), outs_[0].info.get("fn"))
     except _Stop:
         pass
     walk = [s for k, s in got if k == "walk"]
@@ -339,11 +343,14 @@ def generated(chk, rule="C04.Q"):
     for kind in ("dyn", "static"):
         K = env.kinds[kind]
         for which in ("p", "n", "npn"):
-            for n in ns:
+            # the flip sequences are short (2^n): every size; the swap sequences (n!) only where affordable
+            for n in (tuple(range(7, 13)) if which == "n" else ns):
                 key = "%s::%s_canonization n=%d generated sequences" % (K.adt, which, n)
                 try:
                     walk, dec, b = capture_sequences(env, kind, which, n)
-                    if walk is None or dec is None:
+                    if (walk is None or dec is None) and capture_sequences.last_panic:
+                        v, d = REFUTED, "panics on every table of %d variables before the walk/decoder is reached (%s)" % (n, capture_sequences.last_panic)
+                    elif walk is None or dec is None:
                         v, d = UNDECIDED, "walk/decoder calls not recognised"
                     elif walk != dec:
                         v, d = REFUTED, "the decoder replays different sequences than the walk used"
